@@ -108,6 +108,15 @@ theorem C11_den_merge_two (d : Decl) (armed sel gsel : List Nat) (hwf : WF d) (h
   ⟨complement_closed hwf hcl, complement_increasing _ _, complement_increasing _ _,
    den_restrict hwf hcl n v p, den_restrict hwf (complement_closed hwf hcl) n v p⟩
 
+/-- Entity by entity: the value the merged simulation holds for the entity stored at index `i`
+    is the value the part simulated alone holds for it, at the position the entity has in the part
+    (`x` is the merged result vector, `reindex l x` the part's, by the theorems above). -/
+theorem C11_entity_value (l : List Nat) (x : Val) (i : Nat) (hi : i ∈ l) :
+    (reindex l x).getD (posIn l i) 0 = x.getD i 0 :=
+  reindex_getD_posIn l x i hi
+
+example : (reindex [1, 3, 4] [50, 90, 70, 80, 120]).getD (posIn [1, 3, 4] 3) 0 = 80 := by decide
+
 /-- the merged example: `v2` for everybody, for situation A alone and for situation B alone -/
 example : den (elabSys c11D []) 4 2 c11Jan = some (.ok [50, 90, 70, 80, 120]) ∧
     den (elabSys (restrict c11D [1, 3, 4] [0, 2]) []) 4 2 c11Jan = some (.ok [90, 80, 120]) ∧
